@@ -12,14 +12,18 @@ theorem pin_toml_Decoder_Decode : Gen.C12.pin_toml_Decoder_Decode = "57f0c30cc7f
 theorem pin_toml_Decoder_nextRootNode : Gen.C12.pin_toml_Decoder_nextRootNode = "3a7aaba85e52bb47" := by decide
 theorem pin_toml_Decoder_decodeField : Gen.C12.pin_toml_Decoder_decodeField = "1f06d984521b347b" := by decide
 theorem pin_toml_Decoder_findArray : Gen.C12.pin_toml_Decoder_findArray = "7090637c1997eb31" := by decide
-theorem pin_toml_Decoder_findArrayPrefix : Gen.C12.pin_toml_Decoder_findArrayPrefix = "2a9ebdfbb7a25ae4" := by decide
+theorem pin_toml_Decoder_findArrayPrefix : Gen.C12.pin_toml_Decoder_findArrayPrefix = "22b6f9e6b3f31538" := by decide
 theorem pin_toml_Decoder_decodeKey : Gen.C12.pin_toml_Decoder_decodeKey = "bc8fc10728632f60" := by decide
 theorem pin_toml_Decoder_inlineFields : Gen.C12.pin_toml_Decoder_inlineFields = "23eac75c4a252a4f" := by decide
 theorem pin_toml_quoteLabelIfNeeded : Gen.C12.pin_toml_quoteLabelIfNeeded = "09e2e903431cf364" := by decide
 theorem pin_toml_Decoder_label : Gen.C12.pin_toml_Decoder_label = "b4388d785a0834c4" := by decide
 theorem pin_toml_Decoder_decodeExpr : Gen.C12.pin_toml_Decoder_decodeExpr = "1bffacbeafcfb10e" := by decide
 theorem pin_toml_NewEncoder : Gen.C12.pin_toml_NewEncoder = "cf1c6e3886ff9e65" := by decide
-theorem pin_toml_Encoder_Encode : Gen.C12.pin_toml_Encoder_Encode = "ae8c84e5f9b120e0" := by decide
+theorem pin_toml_Encoder_Encode : Gen.C12.pin_toml_Encoder_Encode = "317c39faf2384837" := by decide
+theorem pin_toml_checkNoNull : Gen.C12.pin_toml_checkNoNull = "41102bb25a8d3b2a" := by decide
+-- the code of repaired defects (fixed: lines of known-findings.d/C12.txt)
+theorem pin_cue_Value_Int64 : Gen.C12.pin_cue_Value_Int64 = "b228d48ce9787d3f" := by decide
+theorem pin_cmd_buildPlan_placeOrphans : Gen.C12.pin_cmd_buildPlan_placeOrphans = "36080d5bde0cf77e" := by decide
 theorem pin_ast_StringLabelNeedsQuoting : Gen.C12.pin_ast_StringLabelNeedsQuoting = "8e5531b8cb8df961" := by decide
 
 end CueVerif.Bridge.C12
